@@ -1,158 +1,116 @@
 """
-In-memory file system below xopen.
+The file system of a simulated run.
 
-sim_xopen() hands a *named* in-memory binary file object to the real xopen.xopen with
-threads=0, so that xopen's format detection (by extension and by magic bytes), the real
-in-process codecs (isal/zlib, bz2, lzma, zstd) and dnaio's name-based FASTA/FASTQ decision all
-run unmodified.  Every write reaches the SimFS entry immediately.
+Every run gets an empty private directory on tmpfs (one per simulator OS process, constant
+path length) into which the -- possibly faulted -- input bytes are written; paths of the form
+/simfs/<name> in a case are mapped to it. cutadapt and everything below it (xopen's detection by
+extension and magic bytes, the in-process codecs, dnaio, and any direct use of open()/os.path)
+therefore see real files. The only seam left is the name `xopen` inside cutadapt.files, which
+forces threads=0 (no compressor threads / external programs) and redirects '-' for writing to
+the captured standard output.
+
+(An earlier version kept files in memory below xopen only; a seeded change that looked at the
+input with os.path.getsize()/open() directly was invisible to it.)
 """
+import atexit
 import io
+import os
+import shutil
+import tempfile
 
 import xopen as _xopen_mod
 
 PREFIX = "/simfs/"
 
-_FS = None  # SimFS of the run in progress
+_ROOT = None
+_STDOUT_BUF = None
 
 
-class SimFS:
-    def __init__(self, files=None):
-        self.files = {}  # path -> bytearray
-        self.events = []  # (op, path)
-        self.open_writers = {}
-        for p, data in (files or {}).items():
-            self.files[p] = bytearray(data)
-
-    def snapshot(self):
-        return {p: bytes(b) for p, b in self.files.items()}
+def _parent():
+    for d in ("/dev/shm", tempfile.gettempdir()):
+        if os.path.isdir(d) and os.access(d, os.W_OK):
+            return d
+    return tempfile.gettempdir()
 
 
-def set_fs(fs):
-    global _FS
-    _FS = fs
+def _remove_stale():
+    parent = _parent()
+    try:
+        names = os.listdir(parent)
+    except OSError:
+        return
+    for name in names:
+        if not name.startswith("cutadapt-verif-fs-"):
+            continue
+        try:
+            pid = int(name.split("-")[3])
+            os.kill(pid, 0)
+        except ProcessLookupError:
+            shutil.rmtree(os.path.join(parent, name), ignore_errors=True)
+        except (IndexError, ValueError, PermissionError):
+            pass
 
 
-def get_fs():
-    return _FS
+def root():
+    """The directory standing for /simfs in this OS process (created on first use)."""
+    global _ROOT
+    pid = os.getpid()
+    if _ROOT is None or _ROOT[0] != pid:
+        _remove_stale()
+        path = os.path.join(_parent(), f"cutadapt-verif-fs-{pid:08d}")
+        shutil.rmtree(path, ignore_errors=True)
+        os.makedirs(path)
+        _ROOT = (pid, path)
+        atexit.register(cleanup)
+    return _ROOT[1]
 
 
-class SimRawRead(io.RawIOBase):
-    """The raw layer of open(path, 'rb'): wrapped in io.BufferedReader like a real file."""
+def cleanup():
+    global _ROOT
+    if _ROOT is not None and _ROOT[0] == os.getpid():
+        shutil.rmtree(_ROOT[1], ignore_errors=True)
+        _ROOT = None
 
-    def __init__(self, path, data):
-        super().__init__()
-        self.name = path
-        self.mode = "rb"
-        self._data = data
-        self._pos = 0
 
-    def readable(self):
-        return True
+def to_real(s):
+    return s.replace(PREFIX, root() + "/") if isinstance(s, str) else s
 
-    def seekable(self):
-        return True
 
-    def readinto(self, b):
-        m = memoryview(b).cast("B")
-        n = min(len(m), len(self._data) - self._pos)
-        if n <= 0:
-            return 0
-        m[:n] = self._data[self._pos : self._pos + n]
-        self._pos += n
-        return n
+def to_sim(s):
+    return s.replace(root() + "/", PREFIX)
 
-    def seek(self, offset, whence=0):
-        if whence == 0:
-            self._pos = offset
-        elif whence == 1:
-            self._pos += offset
+
+def populate(files):
+    """Empty the directory and write the input files of a run."""
+    r = root()
+    for name in os.listdir(r):
+        p = os.path.join(r, name)
+        if os.path.isdir(p):
+            shutil.rmtree(p, ignore_errors=True)
         else:
-            self._pos = len(self._data) + offset
-        self._pos = max(0, self._pos)
-        return self._pos
-
-    def tell(self):
-        return self._pos
-
-    def fileno(self):
-        raise io.UnsupportedOperation("fileno")
+            os.unlink(p)
+    for p, data in files.items():
+        with open(to_real(p), "wb") as f:
+            f.write(data)
 
 
-class SimRawWrite(io.RawIOBase):
-    """The raw layer of open(path, 'wb'): wrapped in io.BufferedWriter like a real file, so
-    data reaches SimFS when the buffer is flushed or the file is closed (or collected)."""
-
-    def __init__(self, fs, path, append=False):
-        super().__init__()
-        self.name = path
-        self.mode = "ab" if append else "wb"
-        if not append or path not in fs.files:
-            fs.files[path] = bytearray()
-        self._buf = fs.files[path]
-        self._fs = fs
-        fs.events.append(("create", path))
-
-    def writable(self):
-        return True
-
-    def seekable(self):
-        return False
-
-    def write(self, b):
-        if self.closed:
-            raise ValueError("write to closed file")
-        m = memoryview(b).cast("B")
-        self._buf += m
-        return len(m)
-
-    def tell(self):
-        return len(self._buf)
-
-    def fileno(self):
-        raise io.UnsupportedOperation("fileno")
-
-    def close(self):
-        if not self.closed:
-            self._fs.events.append(("close", self.name))
-        super().close()
-
-
-def _sim_raw_open(path, mode):
-    fs = _FS
-    if fs is None:
-        raise RuntimeError("no SimFS active")
-    if "r" in mode:
-        if path not in fs.files:
-            raise FileNotFoundError(2, "No such file or directory", path)
-        fs.events.append(("open", path))
-        return io.BufferedReader(SimRawRead(path, bytes(fs.files[path])))
-    return io.BufferedWriter(SimRawWrite(fs, path, append="a" in mode))
-
-
-def sim_xopen(filename, mode="r", compresslevel=None, threads=None, **kwargs):
-    """Replacement for the name `xopen` inside cutadapt.files."""
-    if isinstance(filename, str) and filename != "-":
-        if not filename.startswith(PREFIX):
-            raise FileNotFoundError(2, "path outside the simulated file system", filename)
-        binmode = mode[0] + "b"
-        fileobj = _sim_raw_open(filename, binmode)
-        return _xopen_mod.xopen(fileobj, mode, compresslevel=compresslevel, threads=0, **kwargs)
-    if filename == "-":
-        if "r" in mode:
-            raise io.UnsupportedOperation("reading standard input is not modelled")
-        proxy = StdoutBinaryProxy(_STDOUT_BUF)
-        return io.TextIOWrapper(proxy, encoding="utf-8") if "t" in mode or mode == "w" else proxy
-    return _xopen_mod.xopen(filename, mode, compresslevel=compresslevel, threads=0, **kwargs)
-
-
-def sim_open(path, mode="r", *args, **kwargs):
-    """Replacement for builtin open inside cutadapt.cli (used for --json)."""
-    if isinstance(path, str) and path.startswith(PREFIX):
-        raw = _sim_raw_open(path, mode.replace("t", "") + "b" if "b" not in mode else mode)
-        if "b" in mode:
-            return raw
-        return io.TextIOWrapper(raw, encoding="utf-8")
-    raise FileNotFoundError(2, "path outside the simulated file system", path)
+def snapshot():
+    """{'/simfs/<name>': bytes} of everything in the directory."""
+    r = root()
+    out = {}
+    for dirpath, _, names in os.walk(r):
+        for name in names:
+            full = os.path.join(dirpath, name)
+            try:
+                with open(full, "rb") as f:
+                    data = f.read()
+                if name.endswith(".json"):
+                    # the JSON report quotes its command line and input paths
+                    data = data.replace(r.encode() + b"/", PREFIX.encode())
+                out[PREFIX + os.path.relpath(full, r)] = data
+            except OSError:
+                pass
+    return out
 
 
 class StdoutBinaryProxy(io.BufferedIOBase):
@@ -172,7 +130,14 @@ class StdoutBinaryProxy(io.BufferedIOBase):
         return self._b.write(b)
 
 
-_STDOUT_BUF = None
+def sim_xopen(filename, mode="r", compresslevel=None, threads=None, **kwargs):
+    """Replacement for the name `xopen` inside cutadapt.files."""
+    if filename == "-":
+        if "r" in mode:
+            raise io.UnsupportedOperation("reading standard input is not modelled")
+        proxy = StdoutBinaryProxy(_STDOUT_BUF)
+        return io.TextIOWrapper(proxy, encoding="utf-8") if ("t" in mode or mode == "w") else proxy
+    return _xopen_mod.xopen(filename, mode, compresslevel=compresslevel, threads=0, **kwargs)
 
 
 class CapturedStdoutBuffer(io.BytesIO):
